@@ -56,7 +56,7 @@ theorem stepOp_log {s s' : State} {i : Nat} {oc : Outcome} (hs : stepOp s i oc =
       simp only at hs
       split at hs
       · cases pc
-        all_goals simp only [stepResize, finishResize, returnResize] at hs
+        all_goals simp only [stepResize, finishResize] at hs
         all_goals repeat' split at hs
         all_goals first
           | (simp at hs; done)
